@@ -575,3 +575,5 @@ func runFilterProc(t fataler, args []string, input []byte, env []string) (stdout
 	}
 	return out.Bytes(), 0
 }
+
+func jsonUnmarshal(b []byte, v interface{}) error { return json.Unmarshal(b, v) }
